@@ -1784,6 +1784,10 @@ def proximal_convex_conj_kl(space, lam=1, g=None):
             """Return ``self(x, out=out)``."""
             # (x + lam - sqrt((x - lam)^2 + 4*lam*sig*g)) / 2
 
+            # Handle `out` aliased with the prior `g` (needed after `out`
+            # has been overwritten)
+            prior = g.copy() if g is out else g
+
             # out = (x - lam)^2
             if x is out:
                 # Handle aliased `x` and `out` (need original `x` later on)
@@ -1795,10 +1799,10 @@ def proximal_convex_conj_kl(space, lam=1, g=None):
 
             # out = ... + 4*lam*sigma*g
             # If g is None, it is taken as the one element
-            if g is None:
+            if prior is None:
                 out += 4.0 * lam * self.sigma
             else:
-                out.lincomb(1, out, 4.0 * lam * self.sigma, g)
+                out.lincomb(1, out, 4.0 * lam * self.sigma, prior)
 
             # out = x - sqrt(...) + lam
             out.ufuncs.sqrt(out=out)
